@@ -141,6 +141,80 @@ def merge(results):
     return counters, evals, len(distinct), violations, known, samples, exhaustive, cpu
 
 
+def library_totals(repo):
+    """Functions and executable lines of <repo>/anytree, from compiling the sources (nothing is imported)."""
+    funcs, lines = set(), {}
+    base = os.path.join(repo, "anytree")
+    for d, _, fs in os.walk(base):
+        for f in fs:
+            if not f.endswith(".py"):
+                continue
+            path = os.path.join(d, f)
+            rel = os.path.relpath(path, base)
+            try:
+                with open(path, encoding="utf-8") as fh:
+                    top = compile(fh.read(), path, "exec", dont_inherit=True)
+            except (SyntaxError, ValueError, OSError):
+                continue
+            stack = [top]
+            while stack:
+                co = stack.pop()
+                if co is not top:
+                    funcs.add("%s:%s:%d" % (rel, co.co_qualname, co.co_firstlineno))
+                for _, _, ln in co.co_lines():
+                    if ln is not None:
+                        lines.setdefault(rel, set()).add(ln)
+                stack.extend(c for c in co.co_consts if hasattr(c, "co_code"))
+    return funcs, lines
+
+
+def anchor_files(prop):
+    try:
+        with open(os.path.join(VERIF, "properties.jsonl")) as fh:
+            for ln in fh:
+                rec = json.loads(ln)
+                if rec.get("id") == prop:
+                    return [f[len("anytree/"):] for f in rec.get("anchors", {}).get("files", []) if f.startswith("anytree/")]
+    except (OSError, ValueError):
+        pass
+    return []
+
+
+def library_reach(results, repo, prop=None):
+    got_f, got_l, n = set(), {}, 0
+    for r in results:
+        if r is None or not r.get("reach"):
+            continue
+        n += 1
+        got_f.update(r["reach"]["funcs"])
+        for k, v in r["reach"]["lines"].items():
+            got_l.setdefault(k, set()).update(v)
+    if not n:
+        return {"note": "sys.monitoring not available in the workers: reach not measured"}
+    all_f, all_l = library_totals(repo)
+    by_file = {}
+    for k in sorted(all_l):
+        hit = len(got_l.get(k, set()) & all_l[k])
+        by_file[k] = "%d/%d" % (hit, len(all_l[k]))
+    anchored = {}
+    for f in anchor_files(prop) if prop else []:
+        if f in all_l:
+            anchored[f] = {
+                "lines": by_file[f],
+                "functions_not_reached": sorted(x.split(":", 1)[1] for x in all_f - got_f if x.split(":", 1)[0] == f),
+                "lines_not_reached": sorted(all_l[f] - got_l.get(f, set()))[:80],
+            }
+    return {
+        "anchored_files": anchored,
+        "what": "functions / executable lines of anytree/ executed inside the worker processes of this run (sys.monitoring PY_START and LINE events, measured; class and module bodies count as functions)",
+        "functions_reached": len(got_f & all_f),
+        "functions_total": len(all_f),
+        "lines_reached": sum(len(got_l.get(k, set()) & v) for k, v in all_l.items()),
+        "lines_total": sum(len(v) for v in all_l.values()),
+        "lines_by_file": by_file,
+    }
+
+
 def strict_json(x):
     """NaN / Infinity are not JSON: spell them as strings in evidence and replay files."""
     if isinstance(x, float) and (x != x or x in (float("inf"), float("-inf"))):
@@ -266,6 +340,7 @@ def check(prop, tier="quick", seed=0, jobs=None, replay=None, repo=None, quiet=F
             "worker_cpu_s": round(cpu, 2),
             "repo": repo,
             "technique": getattr(mod, "TECHNIQUE", ""),
+            "library_reach": library_reach(results, repo, prop),
         }
         ev = {
             "property_id": prop,
